@@ -417,3 +417,105 @@ pub fn array_drop_edits(v: &Value) -> Vec<(String, Value)> {
     }
     out
 }
+
+/// Number of entries of the CL refused-call catalogue.
+pub const CL_REFUSED_CALLS: u64 = 10;
+
+struct ClRefusedKit {
+    key: ClKey,
+    bases: Bases,
+    msgs: Vec<CL03Message>,
+    sig: Signature<CL03<CL1024Sha256>>,
+    cpk: CL03CommitmentPublicKey,
+    com: Commitment<CL03<CL1024Sha256>>,
+    zk: ZKPoK<CL03<CL1024Sha256>>,
+    pok: PoKSignature<CL03<CL1024Sha256>>,
+    rp: Boudot2000RangeProof,
+    rp_com: CL03Commitment,
+}
+
+thread_local! {
+    static CL_REFUSED_KIT: std::cell::OnceCell<Option<ClRefusedKit>> = const { std::cell::OnceCell::new() };
+}
+
+fn cl_refused_kit() -> Option<ClRefusedKit> {
+    let key = key_pool(ClSuite::CL1024, 0, 1, 0).into_iter().next()?;
+    let bases = Bases::generate(&key.pk, 2);
+    let msgs = vec![CL03Message::new(Integer::from(1234567)), CL03Message::new(Integer::from(89))];
+    let sig = Signature::<CL03<CL1024Sha256>>::sign_multiattr(&key.pk, &key.sk, &bases, &msgs);
+    let cpk = CL03CommitmentPublicKey::generate::<CL1024Sha256>(Some(key.pk.N.clone()), Some(2));
+    let com = Commitment::<CL03<CL1024Sha256>>::commit_with_pk(&msgs, &key.pk, &bases, Some(&[0]));
+    let zk = catch(|| ZKPoK::<CL03<CL1024Sha256>>::generate_proof(&msgs, com.cl03Commitment(), None, &key.pk, &bases, None, &[0])).ok()?;
+    let pok = catch(|| PoKSignature::<CL03<CL1024Sha256>>::proof_gen(sig.cl03Signature(), &cpk, &key.pk, &bases, &msgs, &[0])).ok()?;
+    let x = Integer::from(77);
+    let r = Integer::from(123456789);
+    let e = Integer::from(cpk.g_bases[0].pow_mod_ref(&x, &cpk.N)?) * Integer::from(cpk.h.pow_mod_ref(&r, &cpk.N)?) % &cpk.N;
+    let rp_com = CL03Commitment { value: e, randomness: r };
+    let rp = catch(|| Boudot2000RangeProof::prove::<sha2::Sha256>(&x, &rp_com, &cpk.g_bases[0], &cpk.h, &cpk.N, &Integer::from(0), &Integer::from(1000))).ok()?;
+    Some(ClRefusedKit { key, bases, msgs, sig, cpk, com, zk, pok, rp, rp_com })
+}
+
+/// One call that the CL03 code has to refuse (it answers `false` or panics; a panic is swallowed here), executed on
+/// the current thread with honest CL1024 objects that are made once per thread.  A flow whose steps are each
+/// preceded by one of these must behave exactly as without them.
+pub fn cl_refused_call(k: u64) -> &'static str {
+    CL_REFUSED_KIT.with(|cell| {
+        let Some(kit) = cell.get_or_init(cl_refused_kit).as_ref() else { return "kit-not-available" };
+        let (pk, sk) = (&kit.key.pk, &kit.key.sk);
+        let zero = Integer::new();
+        let c_issuer = CL03Commitment { value: kit.com.cl03Commitment().value.clone(), randomness: Integer::new() };
+        match k % CL_REFUSED_CALLS {
+            0 => {
+                let mut m2 = kit.msgs.clone();
+                m2[1] = CL03Message::new(Integer::from(90));
+                let _ = catch(|| kit.sig.verify_multiattr(pk, &kit.bases, &m2));
+                "verify_multiattr:attribute-changed"
+            }
+            1 => {
+                let short = Bases(kit.bases.0[..1].to_vec());
+                let _ = catch(|| kit.sig.verify_multiattr(pk, &short, &kit.msgs));
+                let _ = catch(|| Signature::<CL03<CL1024Sha256>>::sign_multiattr(pk, sk, &short, &kit.msgs));
+                "sign-and-verify_multiattr:fewer-bases-than-attributes"
+            }
+            2 => {
+                let _ = catch(|| kit.zk.verify_proof(&c_issuer, None, pk, &kit.bases, None, &[1]));
+                "verify_proof:other-hidden-position"
+            }
+            3 => {
+                let _ = catch(|| kit.zk.verify_proof(&c_issuer, None, pk, &kit.bases, None, &[0, 7]));
+                let _ = catch(|| ZKPoK::<CL03<CL1024Sha256>>::generate_proof(&kit.msgs, kit.com.cl03Commitment(), None, pk, &kit.bases, None, &[0, 7]));
+                "generate-and-verify_proof:hidden-position-out-of-range"
+            }
+            4 => {
+                let mut cpk2 = kit.cpk.clone();
+                cpk2.g_bases.truncate(1);
+                let _ = catch(|| kit.pok.proof_verify(&cpk2, pk, &kit.bases, &kit.msgs[1..], &[0], 2));
+                "proof_verify:commitment-key-without-a-base"
+            }
+            5 => {
+                let mut cpk2 = kit.cpk.clone();
+                cpk2.h = zero.clone();
+                let _ = catch(|| kit.pok.proof_verify(&cpk2, pk, &kit.bases, &kit.msgs[1..], &[0], 2));
+                "proof_verify:h=0"
+            }
+            6 => {
+                let _ = catch(|| kit.pok.proof_verify(&kit.cpk, pk, &kit.bases, &kit.msgs[..1], &[0], 2));
+                "proof_verify:other-revealed-attribute"
+            }
+            7 => {
+                let _ = catch(|| kit.rp.verify::<sha2::Sha256>(&kit.cpk.g_bases[0], &kit.cpk.h, &kit.cpk.N, &Integer::from(100), &Integer::from(1000)));
+                let _ = catch(|| kit.rp.verify::<sha2::Sha256>(&kit.cpk.g_bases[0], &zero, &kit.cpk.N, &Integer::from(0), &Integer::from(1000)));
+                "range-proof-verify:other-bounds,h=0"
+            }
+            8 => {
+                let _ = catch(|| Boudot2000RangeProof::prove::<sha2::Sha256>(&Integer::from(5000), &kit.rp_com, &kit.cpk.g_bases[0], &kit.cpk.h, &kit.cpk.N, &Integer::from(0), &Integer::from(1000)));
+                "range-proof-prove:value-out-of-range"
+            }
+            _ => {
+                let other = CL03Commitment { value: (c_issuer.value.clone() * &pk.b) % &pk.N, randomness: Integer::new() };
+                let _ = catch(|| BlindSignature::<CL03<CL1024Sha256>>::blind_sign(pk, sk, &kit.bases, &kit.zk, Some(&kit.msgs[1..]), &other, None, None, &[0], Some(&[1])));
+                "blind_sign:proof-for-another-commitment"
+            }
+        }
+    })
+}
